@@ -206,8 +206,8 @@ def member_arr(proj, r):
 
 
 def config(rnd, i):
-    fw = [16, 19, 20, 21, 32][i % 5]
-    micro = (i % 7 == 6)
+    fw = [16, 17, 18, 19, 20, 21, 32][i % 7]
+    micro = (i % 9 == 8)
     ident = S.identity(fw=fw, name="2080-LC50-48QWB" if micro else "1756-L83E/B", serial=rnd.getrandbits(32))
     return fw, micro, ident
 
